@@ -45,3 +45,16 @@ func (r *R) Pick(weights ...int) int {
 	}
 	return len(weights) - 1
 }
+
+// Perm returns a pseudo-random permutation of [0,n).
+func (r *R) Perm(n int) []int {
+	p := make([]int, n)
+	for i := range p {
+		p[i] = i
+	}
+	for i := n - 1; i > 0; i-- {
+		j := r.Intn(i + 1)
+		p[i], p[j] = p[j], p[i]
+	}
+	return p
+}
